@@ -209,6 +209,28 @@ func anyExpr(g *xgen.G, rt *rapid.T, ctx *xdoc.Node) (e xast.Expr, nodeSet bool)
 		// every use of the compiled expression and from every goroutine
 		o := xgen.PathOpts{MaxSteps: 2, AbsShare: 4, DSlash: 3}
 		return &xast.Bin{Op: rapid.SampledFrom([]string{"or", "and"}).Draw(rt, "boolsel"), L: g.AxisPath(ctx, o), R: g.AxisPath(ctx, o)}, true
+	case 16:
+		// replace()/matches() with a literal pattern (with groups) and the other arguments taken
+		// from each candidate: whatever the call site prepares once "because the pattern is
+		// constant" must not depend on the first candidate it happened to meet
+		at := func(n string) xast.Expr {
+			return &xast.Call{Name: "string", Args: []xast.Expr{&xast.Path{Steps: []interface{}{&xast.Step{Axis: "attribute", Test: xast.NodeTest{Kind: "name", Local: n}, Abbr: true}}}}}
+		}
+		pat := &xast.Str{S: rapid.SampledFrom([]string{"(1)|(t)", "^(.)", "(2)?$", "(1)(0)?", "(.)(.)?", "[12t]"}).Draw(rt, "litpat")}
+		var call xast.Expr = &xast.Call{Name: "replace", Args: []xast.Expr{at("x"), pat, at("y")}}
+		if rapid.IntRange(0, 3).Draw(rt, "swapargs") == 0 {
+			call = &xast.Call{Name: "replace", Args: []xast.Expr{at("y"), pat, at("x")}}
+		}
+		var pred xast.Expr
+		switch rapid.IntRange(0, 2).Draw(rt, "rxpred") {
+		case 0:
+			pred = &xast.Bin{Op: "!=", L: call, R: at("x")}
+		case 1:
+			pred = &xast.Bin{Op: "=", L: call, R: &xast.Str{S: rapid.SampledFrom([]string{"", "1", "2", "t", "22", "tt"}).Draw(rt, "rxlit")}}
+		default:
+			pred = &xast.Call{Name: "contains", Args: []xast.Expr{call, at("y")}}
+		}
+		return &xast.Path{Abs: true, Steps: []interface{}{xast.DSlash{}, &xast.Step{Axis: "child", Test: xast.NodeTest{Kind: "wild"}, Abbr: true, Preds: []xast.Expr{pred}}}}, true
 	case 6:
 		e, _ = g.BoolExpr(ctx, 2)
 		if xast.HasCall(e, "contains") {
